@@ -333,11 +333,33 @@ def h_nstep_ni(E):
 RTG = "rl_blox.algorithm.reinforce.discounted_reward_to_go"
 
 
+def _rtg_roles(E):
+    """(name of the list the loop appends to, name of the numeric accumulator) of discounted_reward_to_go's loop,
+    read off the real AST (so that renaming the locals does not matter)"""
+    import ast as _ast
+
+    fn = E.resolve(RTG).node
+    loop = next(n for n in _ast.walk(fn) if isinstance(n, (_ast.For, _ast.While)))
+    appended = [n.func.value.id for n in _ast.walk(loop) if isinstance(n, _ast.Call) and isinstance(n.func, _ast.Attribute)
+                and n.func.attr == "append" and isinstance(n.func.value, _ast.Name)]
+    target = {n.id for n in _ast.walk(loop.target) if isinstance(n, _ast.Name)} if isinstance(loop, _ast.For) else set()
+    assigned = []
+    for n in _ast.walk(loop):
+        if isinstance(n, (_ast.Assign, _ast.AugAssign, _ast.AnnAssign)):
+            for t in (n.targets if isinstance(n, _ast.Assign) else [n.target]):
+                if isinstance(t, _ast.Name) and t.id not in target and t.id not in appended and t.id not in assigned:
+                    assigned.append(t.id)
+    if len(set(appended)) != 1 or len(assigned) != 1:
+        raise C.Unsupported(f"discounted_reward_to_go: loop shape not recognised (appends to {appended}, accumulates {assigned})")
+    return appended[0], assigned[0]
+
+
 def rtg_loop(L):
     g = L.E.st.ghost["c07.rtg"]
     i0, G, nz = g["i0"].z, g["G"], g["n"]
     k = C.to_z3(L.it)
-    out = L["discounted_returns"]
+    lst_name, acc_name = _rtg_roles(L.E)
+    out = L[lst_name]
     if isinstance(out, SymList):
         ln = out.len_z()
         j0 = nz - 1 - i0
@@ -345,14 +367,14 @@ def rtg_loop(L):
     else:  # the python list at loop entry
         ln = z3.IntVal(len(out))
         elem = z3.BoolVal(len(out) == 0)
-    return [("acc_is_return_of_suffix", C.compare("==", L["accumulated_return"], Sym(G(nz - k)))),
+    return [("acc_is_return_of_suffix", C.compare("==", L[acc_name], Sym(G(nz - k)))),
             ("one_output_per_step", Sym(ln == k)),
             ("outputs_are_returns_back_to_front", Sym(elem))]
 
 
 def rtg_havoc(E, fr):
     # the result list after an arbitrary number of iterations: a list of reals of arbitrary length
-    fr.vars["discounted_returns"] = fresh_symlist(E, "discounted_returns", [REAL])
+    fr.vars[_rtg_roles(E)[0]] = fresh_symlist(E, "discounted_returns", [REAL])
 
 
 def setup_rtg(shared):
